@@ -461,6 +461,10 @@ class ExprMixin:
         if sl.step is not None:
             raise Unsupported('slice step')
         t = base.t
+        if isinstance(t, TOpt):
+            if not self.spec_mode:
+                self.need(z3.Not(t.is_none(base.z)), 'TypeError')
+            return self.do_slice(V(t.inner, t.val(base.z)), sl)
         if isinstance(t, TTuple):
             items = self.tuple_items(base)
             lo = const_eval(sl.lower) if sl.lower is not None else None
